@@ -127,6 +127,9 @@ func (c *fnCtx) function() {
 	if fn.ctor != nil {
 		recvType, targs = fn.ctor.tname, fn.ctor.targs
 	}
+	if fn.localObj != nil {
+		recvType, targs = fn.localObj.tname, fn.localObj.targs
+	}
 	if fn.pooled != nil {
 		recvType, targs = fn.pooled.tname, nil
 	}
@@ -195,6 +198,10 @@ func (c *fnCtx) function() {
 		}
 	}
 
+	c.logFields = fieldFuncNoRes
+	nilTested := nilTestedFuncParams(fd)
+	c.nilFlags = map[*ast.Object]*fnVar{}
+
 	// ---- summary of the body: fields used / assigned, logs, zero values
 	sc := &fnScan{fieldsUsed: map[string]bool{}, fieldsMut: map[string]bool{}}
 	var needExtras [][2]string
@@ -248,6 +255,9 @@ func (c *fnCtx) function() {
 					sc.fieldsMut[f] = true
 					if sel, ok := l.(*ast.SelectorExpr); ok && isRecvIdent(sel.X) {
 						fn.reshapes[f] = true
+						if _, isArr := fieldTypes[f].(*ast.ArrayType); isArr && c.g.capFields[recvType+"."+f] {
+							fn.fatFields[f] = true // spec cap:
+						}
 					}
 				}
 			}
@@ -330,6 +340,9 @@ func (c *fnCtx) function() {
 				for f := range cal.reshapes {
 					fn.reshapes[f] = true
 				}
+				for f := range cal.remakes {
+					fn.remakes[f] = true
+				}
 				for _, l := range cal.logs {
 					sc.addLog(l)
 				}
@@ -368,9 +381,18 @@ func (c *fnCtx) function() {
 	}
 
 	// ---- variables of the signature
+	var handedObjs map[*ast.Object]string
+	if lo := fn.localObj; lo != nil {
+		c.localObjChecks(lo)
+		handedObjs = c.handedParams(lo)
+		for _, f := range handedObjs {
+			fn.fatFields[f] = true // the array is the caller's: what falls off the field stays in it
+		}
+	}
 	for _, f := range fieldNames {
-		if fn.ctor != nil {
+		if fn.ctor != nil || fn.localObj != nil {
 			// a constructor: every field of the new object is a local and is returned
+			// (a local object: every field is a local)
 			if fieldFuncNoRes[f] || isMutexType(fieldTypes[f]) {
 				continue
 			}
@@ -404,6 +426,9 @@ func (c *fnCtx) function() {
 			fn.mutFields = append(fn.mutFields, f)
 			continue
 		}
+		if fn.localObj != nil {
+			continue
+		}
 		fn.fields = append(fn.fields, f)
 		if sc.fieldsMut[f] {
 			fn.mutFields = append(fn.mutFields, f)
@@ -429,11 +454,14 @@ func (c *fnCtx) function() {
 			continue // fn_stdobj.go: x *pkg.T of the standard library: an object handed in and back
 		}
 		t, isPtr := c.paramTypeOf(f.Type)
-		if len(f.Names) == 0 {
-			c.lostAt(f, "unnamed parameter")
+		names := f.Names
+		if len(names) == 0 {
+			// an unnamed parameter (func nmove[T any](T, int) {}): an argument nobody can mention
+			nm := "a" + strconv.Itoa(len(fn.params))
+			names = []*ast.Ident{{Name: nm, NamePos: f.Pos(), Obj: ast.NewObj(ast.Var, nm)}}
 		}
 		_, isVariadic := f.Type.(*ast.Ellipsis)
-		for _, n := range f.Names {
+		for _, n := range names {
 			p := &fnParam{goName: n.Name, variadic: isVariadic}
 			fn.params = append(fn.params, p)
 			if t.k == "map" {
@@ -461,6 +489,17 @@ func (c *fnCtx) function() {
 				}
 				continue
 			}
+			if n.Obj != nil && nilTested[n.Obj] {
+				// u == nil on a function-typed parameter: a flag of its own, before the function
+				fl := c.newVar(n.Name+"_nil", tyBool, "param")
+				c.nilFlags[n.Obj] = fl
+				fn.nilParams = true
+				if t.k == "func" && len(t.res) == 0 {
+					p.v = fl
+					continue
+				}
+				fn.params = append(fn.params[:len(fn.params)-1], &fnParam{goName: n.Name + "_nil", v: fl}, p)
+			}
 			if t.k == "func" && len(t.res) == 0 {
 				continue // called for effect only: its calls are the log
 			}
@@ -483,6 +522,24 @@ func (c *fnCtx) function() {
 					v.noElems = !u.elems
 				}
 				p.mutated = u.stored
+				if f, ok := handedObjs[n.Obj]; ok {
+					// the local object works on this parameter's array: its final content is returned
+					if u.view || v.noElems {
+						c.lostAt(fd, "slice parameter %s handed to a constructor and also re-sliced into a result", n.Name)
+					}
+					end := fn.localObj.stmt.End()
+					ast.Inspect(c.body, func(x ast.Node) bool {
+						if id, ok := x.(*ast.Ident); ok && id.Obj == n.Obj && id.Pos() > end {
+							c.lostAt(id, "slice parameter %s used after it was handed to the constructor %s (aliasing)", n.Name, fn.localObj.callee.Name.Name)
+						}
+						return true
+					})
+					p.mutated = true
+					if c.handed == nil {
+						c.handed = map[*fnVar]string{}
+					}
+					c.handed[v] = f
+				}
 			}
 		}
 	}
@@ -552,6 +609,7 @@ func (c *fnCtx) function() {
 	// ---- body
 	var body term
 	end := func() term {
+		c.retPos = fd.Body.Rbrace
 		if len(fn.results) > 0 {
 			if len(c.retNames) == len(fn.results) {
 				var vals []string
@@ -591,6 +649,11 @@ func (c *fnCtx) function() {
 		}
 	}
 	fn.retFresh = c.computeRetFresh(c.body)
+	for _, f := range c.handed {
+		if fn.remakes[f] {
+			c.lostAt(fd, "the field %s, which holds the array of a slice parameter, is given a new array (make) by a method called here", f)
+		}
+	}
 	c.emit(body)
 }
 
@@ -1009,6 +1072,12 @@ func tuple(xs []string) string {
 func (c *fnCtx) retTerm(vals []string) term {
 	xs := append([]string{}, vals...)
 	for _, v := range c.retVars() {
+		if f, ok := c.handed[v]; ok && c.retPos > c.fn.localObj.stmt.End() {
+			// the array this function was handed, after the object worked on it
+			x := c.fields[f]
+			xs = append(xs, "(go_handback "+x.name+" "+c.fat[x].name+")")
+			continue
+		}
 		xs = append(xs, v.name)
 	}
 	t := tuple(xs)
@@ -1665,6 +1734,9 @@ func (c *fnCtx) binary(v *ast.BinaryExpr, pre *[]fnBind) (string, *fnType) {
 		}
 		*pre = append(*pre, fnBind{pat: tuple(append([]string{tm}, st...)), m: m, effect: len(st) > 0})
 		return tm, tyBool
+	}
+	if s, ok := c.funcNilTest(v); ok {
+		return s, tyBool
 	}
 	x, xt := c.expr(v.X, pre)
 	y, yt := c.expr(v.Y, pre)
